@@ -5,10 +5,10 @@ package main
 func c19Reviewed() {
 	jc := "internal/jsoncanonicalizer."
 	// Transform: every read of jsonData[index] sits under `index < jsonDataLength`, jsonDataLength = len(jsonData) assigned once
-	reviewed(jc+"Transform", "new<[]byte>#0[new<int>#1]", "loop condition `index < jsonDataLength` (jsonDataLength = len(jsonData), assigned once) guards the read in the same iteration", `(new<int>#1 < new<int>#0)=true`)
-	reviewed(jc+"Transform$4", "up:new<[]byte>#0[up:new<int>#1]", "nextChar reads jsonData[index] only inside `if index < jsonDataLength`", `(up:new<int>#1 < up:new<int>#0)=true`)
-	reviewed(jc+"Transform$10", "up:new<[]byte>#0[up:new<int>#1]", "parseQuotedString reads jsonData[index] only inside `if index < jsonDataLength`", `(up:new<int>#1 < up:new<int>#0)=true`)
-	reviewed(jc+"Transform$7", "up:new<[]byte>#0[up:new<int>#1:up:new<int>#1]", "getUEscape slices [start:index] only when the four nextChar calls reported no error, i.e. index advanced 4 times within bounds (on EOF globalError is set and the function returns before slicing)", `(up:new<error>#0 == nil)=true`)
+	reviewed(jc+"Transform", "$0[new<int>#1]", "loop condition `index < jsonDataLength` (jsonDataLength = len(jsonData), assigned once) guards the read in the same iteration", `(new<int>#1 < len($0))=true`)
+	reviewed(jc+"Transform$4", "up:$0[up:new<int>#1]", "nextChar reads jsonData[index] only inside `if index < jsonDataLength`", `(up:new<int>#1 < up:len($0))=true`)
+	reviewed(jc+"Transform$10", "up:$0[up:new<int>#1]", "parseQuotedString reads jsonData[index] only inside `if index < jsonDataLength`", `(up:new<int>#1 < up:len($0))=true`)
+	reviewed(jc+"Transform$7", "up:$0[up:new<int>#1:up:new<int>#1]", "getUEscape slices [start:index] only when the four nextChar calls reported no error, i.e. index advanced 4 times within bounds (on EOF globalError is set and the function returns before slicing)", `(up:new<error>#0 == nil)=true`)
 	reviewed(jc+"Transform$9", "global:internal/jsoncanonicalizer.asciiEscapes[ι]", "i ranges over binaryEscapes, which has the same length (7) as asciiEscapes — pinned by C05.T1", `(ι < len(global:internal/jsoncanonicalizer.binaryEscapes))=true`)
 	reviewed(jc+"Transform$10", "global:internal/jsoncanonicalizer.binaryEscapes[ι]", "i ranges over asciiEscapes, which has the same length (7) as binaryEscapes — pinned by C05.T1", `(ι < len(global:internal/jsoncanonicalizer.asciiEscapes))=true`)
 	// NumberToJSON: indices derive from the documented output format of strconv.FormatFloat
